@@ -6,7 +6,7 @@ func init() {
 	register(&Property{ID: "C01", Run: runC01, Assumptions: commonAssumptions,
 		Explanation: "Structural necessary conditions of election safety: vote-handler post-conditions on every path (E3), a node becomes leader only in candidate.onVoteResult after counting a quorum of success replies of the current election (fresh reply channel, replies sent on the channel captured at start, quorum = voters/2+1 of the latest configuration), the candidate's self vote is persisted before any request, and every site that observes a higher term adopts it and steps down. That two majorities intersect across schedules, crashes and reconfigurations is a history property and is not decided."})
 	register(&Property{ID: "C17", Run: runC17, Assumptions: commonAssumptions,
-		Explanation: "Only the leader-stability clause of C17 is decided (availability/liveness is not applicable to static analysis): on every path of the vote handler with no transfer flag, a known leader and a requester that is not that leader, the result is not success and the persisted (term, vote) pair is unchanged; a vote reply resets the election timer only when it granted the vote; Raft.leader is written only by setLeader."})
+		Explanation: "Only the leader-stability clause of C17 is decided, plus two structural necessary conditions of catch-up (a rejected probe strictly lowers nextIndex; a compacted entry leads to snapshot installation); availability/liveness itself is not applicable to static analysis: on every path of the vote handler with no transfer flag, a known leader and a requester that is not that leader, the result is not success and the persisted (term, vote) pair is unchanged; a vote reply resets the election timer only when it granted the vote; Raft.leader is written only by setLeader."})
 }
 
 func runC01(c *core.Ctx) {
@@ -21,6 +21,9 @@ func runC01(c *core.Ctx) {
 		h.voteStepDown("C01.5a vote-handler-steps-down", vt)
 	}
 	h.setterPersistThenPublish("C01.1b persist-then-publish", "raft:(*storage).setVotedFor", ">=")
+	c.Clause("C01.2b the recorded vote is cleared only when the term strictly increases")
+	h.setterPersistThenPublish("C01.2b vote-cleared-only-on-higher-term", "raft:(*storage).setTerm", ">")
+	h.setTermOnlyOnHigherTerm("C01.2c setTerm-call-sites")
 	c.Clause("C01.3 only a counted quorum of success replies of the current election makes a leader")
 	h.leaderOnlyByMajority("C01.3 leader-by-majority")
 	c.Clause("C01.4 candidate persists (term+1, self) before requesting votes")
@@ -40,4 +43,7 @@ func runC17(c *core.Ctx) {
 	h.resetTimerOnlyOnGrant("C17.2 reset-timer")
 	c.Clause("C17.3 Raft.leader is written only through setLeader")
 	h.onlyWriters("C17.3 who-may-write", "raft:Raft.leader", "(*Raft).setLeader")
+	c.Clause("C17.4 (necessary condition of catch-up only, not liveness) a rejected probe strictly lowers nextIndex; a compacted entry leads to snapshot installation")
+	h.probeBackoffProgress("C17.4 probe-backoff")
+	h.snapshotFallback("C17.4b snapshot-fallback")
 }
